@@ -164,6 +164,7 @@ class Runner:
         self.violations = []
         self.trivial = []
         self.canaries = 0
+        self.known_hits = []
 
     def hints_for(self, E, ob):
         """lemma instances requested by the contract's `use` entries whose scope matches the obligation"""
@@ -385,21 +386,31 @@ class Runner:
             }
             with open(path, "w") as f:
                 json.dump(rec, f, indent=1, default=str)
-            reproduced, desc = run_replay(prop, path)
+            rec["path_tags"] = v["ob"].env.get("tags", [])
+            if match_known(known, rec["path_tags"]) is None:
+                reproduced, desc = run_replay(prop, path)
+            else:
+                reproduced, desc = False, "path carries a known-finding tag"
             rec["replay"] = {"reproduced": reproduced, "detail": desc}
             with open(path, "w") as f:
                 json.dump(rec, f, indent=1, default=str)
-            k = match_known(known, oid, desc, reproduced)
+            k = match_known(known, v["ob"].env.get("tags", []))
             if k is not None:
-                lines.append(f"KNOWN-FINDING: property={prop} {k['what']}")
+                if not k["seen"]:
+                    # re-confirm the recorded failing input against the real code before reporting it as known
+                    rep2, desc2 = run_replay(prop, os.path.join(VERIF, k["replay"])) if k["replay"] else (False, "")
+                    lines.append(f"KNOWN-FINDING: property={prop} {k['what']}" + ("" if rep2 else " [recorded input did not reproduce this run]"))
                 k["seen"] = True
+                self.known_hits.append({"obligation": oid, "tag": k["tag"]})
                 continue
             nviol += 1
             if reproduced:
                 lines.append(f"VIOLATION property={prop} replay={path}")
             else:
                 lines.append(f"VIOLATION property={prop} replay={path} no-failing-input-found")
-        n_ob = len(self.obligations)
+        known_obl = {h["obligation"] for h in self.known_hits}
+        excluded = [o for o in self.obligations if o["status"] != "discharged" and o["id"] in known_obl]
+        n_ob = len(self.obligations) - len(excluded)
         n_dis = sum(1 for o in self.obligations if o["status"] == "discharged")
         undecided = [p for p in self.problems]
         ev = {
@@ -423,6 +434,8 @@ class Runner:
                 "not_decided": list(getattr(cm, "NOT_DECIDED", [])),
                 "bounded": list(getattr(cm, "BOUNDED", [])),
                 "undecided_now": undecided,
+                "known_findings_hit": self.known_hits,
+                "obligations_excluded_by_known_findings": [o["id"] + " " + o.get("where", "") for o in excluded],
                 "explanation": getattr(cm, "EXPLANATION", ""),
             },
             "assumptions": list(getattr(cm, "ASSUMPTIONS", [])) + [f"float model: {f['float_mode']} for {f['target'].split('::')[1]}" for f in self.functions if f["float_mode"] != "exact"],
@@ -484,24 +497,26 @@ def run_replay(prop, path):
 
 
 def load_known_findings(prop):
+    """known_findings.txt lines:  finding: property=Cxx tag=<path-tag> replay=<file under /verif/known/> :: <what fails>
+    A finding suppresses ONLY refuted obligations on paths that carry its tag (a delegate outcome / input class named in the contract);
+    every other refutation of the same property is still a violation. `fixed:` lines suppress nothing."""
     path = os.path.join(VERIF, "known_findings.txt")
     out = []
     if not os.path.exists(path):
         return out
     for line in open(path):
         line = line.strip()
-        if not line or line.startswith("#") or line.startswith("fixed:"):
+        if not line.startswith("finding:"):
             continue
-        if line.startswith("finding:"):
-            d = dict(kv.split("=", 1) for kv in line[len("finding:"):].strip().split(" ", 3)[:3])
-            what = line[len("finding:"):].strip().split(" ", 3)[3] if len(line.split(" ")) > 4 else ""
-            if d.get("property") == prop:
-                out.append({"obligation": d.get("obligation", ""), "signature": d.get("signature", ""), "what": what, "seen": False})
+        head, _, what = line[len("finding:"):].partition("::")
+        d = dict(kv.split("=", 1) for kv in head.split() if "=" in kv)
+        if d.get("property") == prop:
+            out.append({"tag": d.get("tag", ""), "replay": d.get("replay", ""), "what": what.strip(), "seen": False})
     return out
 
 
-def match_known(known, oid, desc, reproduced):
+def match_known(known, tags):
     for k in known:
-        if k["obligation"] and k["obligation"] in oid and (not k["signature"] or k["signature"] in (desc or "")):
+        if k["tag"] and k["tag"] in tags:
             return k
     return None
